@@ -107,6 +107,51 @@ theorem name_le (text : Bytes) (h : text = [] ∨ NameOK text) (pos off : Nat) (
       · simp only [hs, Bool.false_eq_true, ↓reduceIte]
         exact specTail_length_le pos m cp (l :: rest) 0
 
+theorem wireLabels_le_present (ls : List Bytes) : (wireLabels ls).length ≤ (presentLabels ls).length := by
+  induction ls with
+  | nil => simp [wireLabels, presentLabels]
+  | cons l ls ih =>
+    have h1 := wireLabels_length_cons l ls
+    have h2 := presentLabel_length_ge l
+    have h3 : (presentLabels (l :: ls)).length = (presentLabel l).length + 1 + (presentLabels ls).length := by
+      simp [presentLabels]; omega
+    omega
+
+/-- a name that the packer enters in its map while Len only counts `len(text) + 1` for it (the gateway host of
+    IPSECKEY / AMTRELAY): the two sides stay related, Len's set unchanged -/
+theorem name_uncounted (text : Bytes) (h : text = [] ∨ NameOK text) (pos off : Nat) (m : CMap) (c : List Bytes)
+    (hinv : Inv pos off m c) (w : Bytes) (m' : CMap) (hp : nameC text pos m false = some (w, m')) :
+    Inv (pos + w.length) (off + (text.length + 1)) m' c ∧ w.length ≤ text.length + 1 := by
+  rcases h with rfl | ⟨ls, hok, rfl⟩
+  · simp only [nameC, packNameC, List.isEmpty_nil, ↓reduceIte, Option.some.injEq, Prod.mk.injEq] at hp
+    obtain ⟨rfl, rfl⟩ := hp
+    exact ⟨inv_est pos off m c 0 _ (by simp) hinv, by simp⟩
+  · cases ls with
+    | nil =>
+      have : nameC (presentOf []) pos m false = some ([0], m) := by
+        simp [nameC, presentOf, packNameC, isFqdn, trailingBackslashes]
+      rw [this] at hp
+      simp only [Option.some.injEq, Prod.mk.injEq] at hp
+      obtain ⟨rfl, rfl⟩ := hp
+      exact ⟨inv_est pos off m c 1 _ (by simp [presentOf]) hinv, by simp [presentOf]⟩
+    | cons l rest =>
+      rw [presentOf_eq] at hp ⊢
+      have hv := C04M.wireNameOK_valid (l :: rest) hok
+      obtain ⟨ptr, hspec⟩ := packNameC_spec pos m false (l :: rest) (by simp) hv
+      simp only [nameC, hspec, Option.some.injEq, Prod.mk.injEq] at hp
+      obtain ⟨rfl, rfl⟩ := hp
+      have hlen : (specTail pos m false (l :: rest) 0).1.length ≤ (presentLabels (l :: rest)).length + 1 := by
+        have := specTail_length_le pos m false (l :: rest) 0
+        have := wireLabels_le_present (l :: rest)
+        omega
+      refine ⟨⟨by have := hinv.pos; omega, ?_, ?_, closed_step pos m false (l :: rest) hv hinv.closed⟩, hlen⟩
+      · intro k hk
+        exact (hasKey_append _ _ _).mpr (Or.inl (hinv.keys k hk))
+      · intro e he
+        rcases List.mem_append.mp he with h | h
+        · have := hinv.back e h; omega
+        · have := specTail_entries_lt pos m false (l :: rest) 0 e h; omega
+
 /-! ### a type's `len()` body lined up with its `pack()` body -/
 
 /-- the pack-side view of one field: the unpack step that filled it (codec and field name), the codec step the packer
@@ -130,7 +175,7 @@ def uintW : CStep → Option Nat | .uint w => some w | _ => none
 def constK : LStep → Option Nat | .const k => some k | _ => none
 
 /-- a variable-length `len()` step against the field it measures -/
-def accountsC (kind : String) (l : LStep) (p : PPS) : Bool :=
+def accountsC (kind : String) (all : List PPS) (idx : Nat) (l : LStep) (p : PPS) : Bool :=
   let codec := p.1.1
   let field := p.1.2.1
   let cs := p.2.1
@@ -148,33 +193,46 @@ def accountsC (kind : String) (l : LStep) (p : PPS) : Bool :=
   | .names f c => field = f ∧ codec = "unpackDataDomainNames" ∧ cs = .names ∧ c = false
   | .ipIf f n => field = f ∧ ((codec = "unpackDataA" ∧ cs = .a ∧ n = 4) ∨ (codec = "unpackDataAAAA" ∧ cs = .aaaa ∧ n = 16))
   | .apl f => field = f ∧ codec = "unpackDataApl" ∧ cs = .apl
-  | .svcb f => field = f ∧ kind = "OPT" ∧ codec = "unpackDataOpt" ∧ cs = .tlvs false
+  | .svcb f => field = f ∧ ((kind = "OPT" ∧ codec = "unpackDataOpt" ∧ cs = .tlvs false) ∨
+      ((kind = "SVCB" ∨ kind = "HTTPS") ∧ codec = "unpackDataSVCB" ∧ cs = .tlvs true))
   | .bitmap f => field = f ∧ codec = "unpackDataNsec" ∧ cs = .nsec
-  | .gateway _ _ _ | .const _ | .other _ => false
+  | .gateway tf m hf =>
+    -- the gateway of IPSECKEY / AMTRELAY: its shape is chosen by an earlier fixed-width field, which both bodies name
+    decide (codec = "unpackIPSECGateway") && decide (hf = "GatewayHost") &&
+      (match cs with
+       | .gateway i mk => decide (mk = m) && decide (i < idx) &&
+           (match all[i]? with
+            | some q => decide (q.1.2.1 = tf) && (uintW q.2.1).isSome && decide (q.1.1 ≠ "unpackIPSECGateway")
+            | none => false)
+       | _ => false)
+  | .const _ | .other _ => false
 
 /-- walk both bodies: `len()` may count fixed-width octets before `pack()` writes them (the credit `cr`), never after a
     later variable-length field; the variable-length fields pair up in order -/
-def alignedF (kind : String) : Nat → Nat → List LStep → List PPS → Bool
-  | 0, _, _, _ => false
-  | f + 1, cr, ls, ps =>
+def alignedF (kind : String) (all : List PPS) : Nat → Nat → Nat → List LStep → List PPS → Bool
+  | 0, _, _, _, _ => false
+  | f + 1, cr, idx, ls, ps =>
     match ls.head?.bind constK with
-    | some k => alignedF kind f (cr + k) ls.tail ps
+    | some k => alignedF kind all f (cr + k) idx ls.tail ps
     | none =>
       match ps.head?.bind (fun p => uintW p.2.1) with
-      | some w => decide (w ≤ cr) && alignedF kind f (cr - w) ls ps.tail
+      | some w => decide (w ≤ cr) && alignedF kind all f (cr - w) (idx + 1) ls ps.tail
       | none =>
         match ls, ps with
         | [], [] => true
-        | l :: ls', p :: ps' => accountsC kind l p && alignedF kind f cr ls' ps'
+        | l :: ls', p :: ps' => accountsC kind all idx l p && alignedF kind all f cr (idx + 1) ls' ps'
         | _, _ => false
 
-/-- every step fills one struct field of its own (the gateway steps of IPSECKEY / AMTRELAY fill two: not covered) -/
-def keysDistinct (ps : List PPS) : Bool :=
-  decide ((ps.map (fun p => p.1.2.1)).Nodup) && ps.all (fun p => p.1.1 != "unpackIPSECGateway")
+/-- the struct fields an unpack step fills -/
+def stepKeys (p : PStep) : List String :=
+  if p.1 = "unpackIPSECGateway" then ["GatewayAddr", "GatewayHost"] else [p.2.1]
+
+/-- every step fills struct fields of its own -/
+def keysDistinct (ps : List PPS) : Bool := decide ((ps.flatMap (fun p => stepKeys p.1)).Nodup)
 
 def alignedKind (kind : String) : Bool :=
   match planOfC kind, pplOf kind with
-  | some ls, some ps => alignedF kind (ls.length + ps.length + 1) 0 ls ps && keysDistinct ps
+  | some ls, some ps => alignedF kind ps (ls.length + ps.length + 1) 0 0 ls ps && keysDistinct ps
   | _, _ => false
 
 /-! ### what a `len()` step adds against what the `pack()` step writes -/
@@ -311,6 +369,213 @@ theorem opt_est (items items' : List (Nat × Bytes)) (h : recodeKV "OPT" items =
             simp only [List.map_cons, List.sum_cons, ho, hd, Option.bind_some]
             omega
 
+/-! #### SVCB / HTTPS parameters: what the packer writes for a decoded value is no longer than the value was -/
+
+theorem chunks_flatten_eq (n : Nat) (fuel : Nat) (b : Bytes) (hf : b.length ≤ fuel) (hn : 0 < n) :
+    (Opt.chunks n fuel b).flatten = b := by
+  induction fuel generalizing b with
+  | zero =>
+    have : b = [] := List.eq_nil_of_length_eq_zero (by omega)
+    subst this; rfl
+  | succ f ih =>
+    simp only [Opt.chunks]
+    split
+    · rename_i he; simp only [List.isEmpty_iff] at he; subst he; rfl
+    · rename_i he
+      have hpos : 0 < b.length := by
+        cases b with
+        | nil => simp at he
+        | cons _ _ => simp
+      simp only [List.flatten_cons]
+      rw [ih (b.drop n) (by simp only [List.length_drop]; omega), List.take_append_drop]
+
+theorem chunks_count (n : Nat) (hn : 0 < n) (fuel : Nat) (b : Bytes) (hf : b.length ≤ fuel) (hb : b.length % n = 0) :
+    (Opt.chunks n fuel b).length * n = b.length := by
+  induction fuel generalizing b with
+  | zero =>
+    have : b = [] := List.eq_nil_of_length_eq_zero (by omega)
+    subst this; simp [Opt.chunks]
+  | succ f ih =>
+    simp only [Opt.chunks]
+    split
+    · rename_i he; simp only [List.isEmpty_iff] at he; subst he; simp
+    · rename_i he
+      have hpos : 0 < b.length := by
+        cases b with
+        | nil => simp at he
+        | cons _ _ => simp
+      have hge : n ≤ b.length := Nat.le_of_dvd hpos (Nat.dvd_of_mod_eq_zero hb)
+      have hd : (b.drop n).length % n = 0 := by
+        simp only [List.length_drop]
+        have := Nat.sub_mod_eq_zero_of_mod_eq (m := b.length) (n := n) (k := n) (by simp [hb])
+        exact this
+      have := ih (b.drop n) (by simp only [List.length_drop]; omega) hd
+      simp only [List.length_cons, List.length_drop] at this ⊢
+      rw [Nat.add_mul, this]
+      omega
+
+theorem insertNat_length (x : Nat) (ys : List Nat) : (Opt.insertNat x ys).length = ys.length + 1 := by
+  induction ys with
+  | nil => rfl
+  | cons y ys ih => simp only [Opt.insertNat]; split <;> simp [ih]
+
+theorem sortNat_length (xs : List Nat) : (Opt.sortNat xs).length = xs.length := by
+  induction xs with
+  | nil => rfl
+  | cons x xs ih => simp [Opt.sortNat, insertNat_length, ih]
+
+theorem flatMap_be2_length (xs : List Nat) : (xs.flatMap (beBytes 2)).length = xs.length * 2 := by
+  induction xs with
+  | nil => rfl
+  | cons x xs ih => simp only [List.flatMap_cons, List.length_append, C11.beBytes_length, ih, List.length_cons]; omega
+
+theorem alpn_recode_len (fuel : Nat) (d : Bytes) (ids : List Bytes) (d' : Bytes)
+    (hu : Opt.unpackAlpn fuel d = some ids) (hp : Opt.packAlpn ids = some d') : d'.length ≤ d.length := by
+  induction fuel generalizing d ids d' with
+  | zero => simp [Opt.unpackAlpn] at hu
+  | succ f ih =>
+    cases d with
+    | nil => simp [Opt.unpackAlpn] at hu; subst hu; simp [Opt.packAlpn] at hp; subst hp; simp
+    | cons l rest =>
+      simp only [Opt.unpackAlpn] at hu
+      split at hu
+      · rename_i hle
+        cases hr : Opt.unpackAlpn f (rest.drop l.toNat) with
+        | none => simp [hr] at hu
+        | some r =>
+          simp only [hr, Option.map_some, Option.some.injEq] at hu
+          subst hu
+          simp only [Opt.packAlpn] at hp
+          split at hp
+          · cases hp
+          · cases hq : Opt.packAlpn r with
+            | none => simp [hq] at hp
+            | some r' =>
+              simp only [hq, Option.map_some, Option.some.injEq] at hp
+              subst hp
+              have := ih (rest.drop l.toNat) r r' hr hq
+              simp only [List.length_cons, List.length_append, List.length_take, List.length_drop] at this ⊢
+              omega
+      · cases hu
+
+/-- one parameter: decode, encode again -/
+theorem param_recode_len (k : Nat) (d : Bytes) (q : Opt.Param) (d' : Bytes) (hu : Opt.unpackParam k d = some q)
+    (hp : Opt.packParam q = some d') : d'.length ≤ d.length := by
+  unfold Opt.unpackParam at hu
+  split at hu
+  · split at hu
+    · cases hu
+    · rename_i heven
+      simp only [Option.some.injEq] at hu; subst hu
+      simp only [Opt.packParam] at hp
+      split at hp
+      · simp only [Option.some.injEq] at hp; subst hp
+        rw [flatMap_be2_length, sortNat_length, List.length_map]
+        have := chunks_count 2 (by omega) d.length d (Nat.le_refl _) (by omega)
+        omega
+      · cases hp
+  · split at hu
+    · cases ha : Opt.unpackAlpn (d.length + 1) d with
+      | none => simp [ha] at hu
+      | some ids =>
+        simp only [ha, Option.map_some, Option.some.injEq] at hu; subst hu
+        exact alpn_recode_len _ d ids d' ha hp
+    · split at hu
+      · split at hu
+        · simp only [Option.some.injEq] at hu; subst hu
+          simp only [Opt.packParam, Option.some.injEq] at hp; subst hp; simp
+        · cases hu
+      · split at hu
+        · split at hu
+          · rename_i h2
+            simp only [Option.some.injEq] at hu; subst hu
+            simp only [Opt.packParam] at hp
+            split at hp
+            · simp only [Option.some.injEq] at hp; subst hp; rw [C11.beBytes_length]; omega
+            · cases hp
+          · cases hu
+        · split at hu
+          · split at hu
+            · cases hu
+            · simp only [Option.some.injEq] at hu; subst hu
+              simp only [Opt.packParam] at hp
+              split at hp
+              · simp only [Option.some.injEq] at hp; subst hp
+                rw [chunks_flatten_eq 4 d.length d (Nat.le_refl _) (by omega)]; exact Nat.le_refl _
+              · cases hp
+          · split at hu
+            · simp only [Option.some.injEq] at hu; subst hu
+              simp only [Opt.packParam, Option.some.injEq] at hp; subst hp; exact Nat.le_refl _
+            · split at hu
+              · split at hu
+                · cases hu
+                · split at hu
+                  · cases hu
+                  · simp only [Option.some.injEq] at hu; subst hu
+                    simp only [Opt.packParam] at hp
+                    split at hp
+                    · simp only [Option.some.injEq] at hp; subst hp
+                      rw [chunks_flatten_eq 16 d.length d (Nat.le_refl _) (by omega)]; exact Nat.le_refl _
+                    · cases hp
+              · split at hu
+                · simp only [Option.some.injEq] at hu; subst hu
+                  simp only [Opt.packParam, Option.some.injEq] at hp; subst hp; exact Nat.le_refl _
+                · split at hu
+                  · split at hu
+                    · simp only [Option.some.injEq] at hu; subst hu
+                      simp only [Opt.packParam, Option.some.injEq] at hp; subst hp; simp
+                    · cases hu
+                  · split at hu
+                    · cases hu
+                    · simp only [Option.some.injEq] at hu; subst hu
+                      simp only [Opt.packParam, Option.some.injEq] at hp; subst hp; exact Nat.le_refl _
+
+theorem insertKV_sum (f : Nat × Bytes → Nat) (x : Nat × Bytes) (ys : List (Nat × Bytes)) :
+    ((insertKV x ys).map f).sum = f x + (ys.map f).sum := by
+  induction ys with
+  | nil => simp [insertKV]
+  | cons y ys ih =>
+    simp only [insertKV]
+    split
+    · simp
+    · simp only [List.map_cons, List.sum_cons, ih]; omega
+
+theorem sortKV_sum (f : Nat × Bytes → Nat) (xs : List (Nat × Bytes)) : ((sortKV xs).map f).sum = (xs.map f).sum := by
+  induction xs with
+  | nil => rfl
+  | cons x xs ih => simp only [sortKV, insertKV_sum, ih, List.map_cons, List.sum_cons]
+
+/-- SVCB / HTTPS: `len()` adds `4 + x.len()` for every value as decoded; the packer writes the values encoded again -/
+theorem svcb_est (kind : String) (hk : kind = "SVCB" ∨ kind = "HTTPS") (items items' : List (Nat × Bytes))
+    (h : recodeKV kind items = some items') :
+    (items'.map (fun x => 4 + x.2.length)).sum ≤ (items.map (fun x => 4 + x.2.length)).sum := by
+  have hno : kind ≠ "OPT" := by rcases hk with rfl | rfl <;> decide
+  simp only [recodeKV, hno, ↓reduceIte, hk] at h
+  induction items generalizing items' with
+  | nil => simp at h; subst h; simp
+  | cons x rest ih =>
+    rw [List.mapM_cons] at h
+    cases hx : (Opt.unpackParam x.1 x.2).bind (fun q => (Opt.packParam q).map (fun d => (q.key, d))) with
+    | none => simp [hx] at h
+    | some y =>
+      cases hr : rest.mapM (fun x => (Opt.unpackParam x.1 x.2).bind (fun q => (Opt.packParam q).map (fun d => (q.key, d)))) with
+      | none => simp [hx, hr] at h
+      | some r =>
+        simp [hx, hr] at h
+        subst h
+        have := ih r hr
+        cases ho : Opt.unpackParam x.1 x.2 with
+        | none => simp [ho] at hx
+        | some q =>
+          cases hd : Opt.packParam q with
+          | none => simp [ho, hd] at hx
+          | some d =>
+            simp only [ho, hd, Option.bind_some, Option.map_some, Option.some.injEq] at hx
+            subst hx
+            have := param_recode_len x.1 x.2 q d ho hd
+            simp only [List.map_cons, List.sum_cons]
+            omega
+
 /-! ### one variable-length field -/
 
 /-- the zero value of a Go field -/
@@ -411,12 +676,37 @@ theorem recode_shape (kind : String) (v v' : Val) (h : recode kind v = some v') 
     simp only [hr, Option.map_some, Option.some.injEq] at h
     exact Or.inr ⟨items, items', rfl, h.symm, hr⟩
 
+/-- the gateway when it is an address (or absent): at most 4 / 16 / 0 octets by its type -/
+theorem gateway_b_size (acc : List Val) (i : Nat) (mk : Bool) (bs w : Bytes)
+    (h : packStep acc (.gateway i mk) (.b bs) = some w) :
+    w.length ≤ (if gatewayType acc i mk = 1 then 4 else if gatewayType acc i mk = 2 then 16
+      else if gatewayType acc i mk = 3 then 0 + 1 else 0) := by
+  simp only [packStep] at h
+  generalize gatewayType acc i mk = t at h ⊢
+  match t, h with
+  | 0, h => cases bs <;> simp at h ⊢; subst h; simp
+  | 1, h =>
+    simp only at h
+    split at h
+    · rename_i hl; simp only [Option.some.injEq] at h; subst h; rcases hl with e | e <;> simp [e]
+    · cases h
+  | 2, h =>
+    simp only at h
+    split at h
+    · rename_i hl; simp only [Option.some.injEq] at h; subst h; rcases hl with e | e <;> simp [e]
+    · cases h
+  | 3, h => cases bs <;> simp at h ⊢; subst h; simp
+  | n + 4, h => cases bs <;> simp at h ⊢; subst h; simp
+
 /-- **one variable-length field**: the `len()` step that accounts for it and the `pack()` step that writes it keep the
     two sides related -/
-theorem var_step (kind : String) (fs : Fields) (l : LStep) (pu : PStep) (cs : CStep) (flag : Bool)
-    (hacc : accountsC kind l (pu, cs, flag) = true) (v v' : Val) (hrec : recode kind v = some v')
+theorem var_step (kind : String) (fs : Fields) (all : List PPS) (idx : Nat) (l : LStep) (pu : PStep) (cs : CStep) (flag : Bool)
+    (hacc : accountsC kind all idx l (pu, cs, flag) = true) (v v' : Val) (hrec : recode kind v = some v')
     (hn : ValNamesOK v) (hfa : FieldsAgree fs kind pu v)
-    (acc : List Val) (pos off : Nat) (m : CMap) (c : List Bytes) (hinv : Inv pos off m c)
+    (acc : List Val)
+    (htype : ∀ tf mk hf i, l = .gateway tf mk hf → cs = .gateway i mk →
+      gatewayType acc i mk = (if mk then fnat fs tf % 128 else fnat fs tf))
+    (pos off : Nat) (m : CMap) (c : List Bytes) (hinv : Inv pos off m c)
     (w : Bytes) (m' : CMap) (hp : packStepC acc pos m flag cs v' = some (w, m'))
     (k : Nat) (c1 : Option (List Bytes)) (hl : stepLenC fs off (some c) l = some (k, c1)) :
     ∃ c', c1 = some c' ∧ Inv (pos + w.length) (off + k) m' c' ∧ w.length ≤ k := by
@@ -648,31 +938,95 @@ theorem var_step (kind : String) (fs : Fields) (l : LStep) (pu : PStep) (cs : CS
         exact plain_done pos off m c hinv _ _ (C08L.bitmap_ge types w0 hw)
     · simp [packStepC, packStep] at hp
   | svcb f =>
+    simp only [accountsC, Bool.and_eq_true, Bool.or_eq_true, decide_eq_true_eq] at hacc
+    obtain ⟨rfl, hc⟩ := hacc
+    rcases hc with ⟨rfl, rfl, rfl⟩ | ⟨hk, rfl, rfl⟩
+    · cases v <;> simp only [recode, Option.some.injEq] at hrec <;> (try subst hrec) <;>
+        (try (simp [packStepC, packStep] at hp; done))
+      rename_i items
+      cases hr : recodeKV "OPT" items with
+      | none => simp [hr] at hrec
+      | some items' =>
+        simp only [hr, Option.map_some, Option.some.injEq] at hrec
+        subst hrec
+        simp [fieldsOfStep] at hg
+        subst hg
+        have hf := fnat_of fs field _ (by simpa using hlook _ (List.mem_singleton.mpr rfl))
+        simp only [stepLenC, hf, Option.some.injEq, Prod.mk.injEq] at hl
+        obtain ⟨rfl, rfl⟩ := hl
+        simp only [packStepC, packStep] at hp
+        cases hw : packTlvs items' with
+        | none => simp [hw] at hp
+        | some w0 =>
+          simp only [hw, Option.map_some, Option.some.injEq, Prod.mk.injEq] at hp
+          obtain ⟨rfl, rfl⟩ := hp
+          refine plain_done pos off m c hinv _ _ ?_
+          rw [tlvs_size items' w0 hw, opt_est items items' hr]
+          exact Nat.le_refl _
+    · have hno : kind ≠ "OPT" := by rcases hk with rfl | rfl <;> decide
+      cases v <;> simp only [recode, Option.some.injEq] at hrec <;> (try subst hrec) <;>
+        (try (simp [packStepC, packStep] at hp; done))
+      rename_i items
+      cases hr : recodeKV kind items with
+      | none => simp [hr] at hrec
+      | some items' =>
+        simp only [hr, Option.map_some, Option.some.injEq] at hrec
+        subst hrec
+        simp [fieldsOfStep, hno] at hg
+        subst hg
+        have hf := fnat_of fs field _ (by simpa using hlook _ (List.mem_singleton.mpr rfl))
+        simp only [stepLenC, hf, Option.some.injEq, Prod.mk.injEq] at hl
+        obtain ⟨rfl, rfl⟩ := hl
+        simp only [packStepC, packStep] at hp
+        split at hp
+        · cases hw : packTlvs (sortKV items') with
+          | none => simp [hw] at hp
+          | some w0 =>
+            simp only [hw, Option.map_some, Option.some.injEq, Prod.mk.injEq] at hp
+            obtain ⟨rfl, rfl⟩ := hp
+            refine plain_done pos off m c hinv _ _ ?_
+            rw [tlvs_size (sortKV items') w0 hw, sortKV_sum]
+            exact svcb_est kind hk items items' hr
+        · simp at hp
+  | gateway tf mk hf =>
     simp only [accountsC, Bool.and_eq_true, decide_eq_true_eq] at hacc
-    obtain ⟨rfl, rfl, rfl, rfl⟩ := hacc
-    cases v <;> simp only [recode, Option.some.injEq] at hrec <;> (try subst hrec) <;>
-      (try (simp [packStepC, packStep] at hp; done))
-    rename_i items
-    cases hr : recodeKV "OPT" items with
-    | none => simp [hr] at hrec
-    | some items' =>
-      simp only [hr, Option.map_some, Option.some.injEq] at hrec
-      subst hrec
-      simp [fieldsOfStep] at hg
-      subst hg
-      have hf := fnat_of fs field _ (by simpa using hlook _ (List.mem_singleton.mpr rfl))
-      simp only [stepLenC, hf, Option.some.injEq, Prod.mk.injEq] at hl
-      obtain ⟨rfl, rfl⟩ := hl
-      simp only [packStepC, packStep] at hp
-      cases hw : packTlvs items' with
-      | none => simp [hw] at hp
-      | some w0 =>
-        simp only [hw, Option.map_some, Option.some.injEq, Prod.mk.injEq] at hp
-        obtain ⟨rfl, rfl⟩ := hp
-        refine plain_done pos off m c hinv _ _ ?_
-        rw [tlvs_size items' w0 hw, opt_est items items' hr]
-        exact Nat.le_refl _
-  | gateway _ _ _ => simp [accountsC] at hacc
+    obtain ⟨⟨rfl, rfl⟩, hcs⟩ := hacc
+    cases cs <;> simp only [Bool.and_eq_true, decide_eq_true_eq, Bool.false_eq_true] at hcs
+    rename_i i mk'
+    obtain ⟨⟨rfl, _⟩, _⟩ := hcs
+    have ht := htype tf mk' "GatewayHost" i rfl rfl
+    simp only [stepLenC, stepLen, Option.map_some, Option.some.injEq, Prod.mk.injEq] at hl
+    obtain ⟨rfl, rfl⟩ := hl
+    rw [← ht]
+    rcases recode_shape kind v v' hrec with rfl | ⟨items, items', rfl, rfl, _⟩
+    · cases v' with
+      | b bs =>
+        simp [fieldsOfStep] at hg
+        subst hg
+        have hhost := fstr_of fs "GatewayHost" [] (hlook _ (by simp))
+        have hp' : (packStep acc (.gateway i mk') (.b bs)).map (fun w => (w, m)) = some (w, m') := hp
+        cases hw : packStep acc (.gateway i mk') (.b bs) with
+        | none => simp [hw] at hp'
+        | some w0 =>
+          simp only [hw, Option.map_some, Option.some.injEq, Prod.mk.injEq] at hp'
+          obtain ⟨rfl, rfl⟩ := hp'
+          refine plain_done pos off m c hinv _ _ ?_
+          have := gateway_b_size acc i mk' bs w0 hw
+          simpa [hhost] using this
+      | t text =>
+        simp [fieldsOfStep] at hg
+        subst hg
+        have hhost := fstr_of fs "GatewayHost" text (hlook _ (by simp))
+        simp only [packStepC] at hp
+        split at hp
+        · rename_i h3
+          rw [h3]
+          simp only [hhost]
+          obtain ⟨h1, h2⟩ := name_uncounted text hn pos off m c hinv w m' hp
+          exact ⟨c, rfl, by simpa using h1, by simpa using h2⟩
+        · cases hp
+      | _ => simp [fieldsOfStep] at hg
+    · simp [fieldsOfStep] at hg
   | const _ => simp [accountsC] at hacc
   | other _ => simp [accountsC] at hacc
 
@@ -687,17 +1041,62 @@ theorem inv_mono (pos off : Nat) (m : CMap) (c : List Bytes) (h : Inv pos off m 
     (h2 : pos' ≤ off') : Inv pos' off' m c :=
   ⟨h2, h.keys, fun e he => by have := h.back e he; omega, h.closed⟩
 
-theorem accountsC_var (kind : String) (l : LStep) (pu : PStep) (cs : CStep) (flag : Bool)
-    (h : accountsC kind l (pu, cs, flag) = true) : cs ≠ .early ∧ constK l = none := by
+theorem accountsC_var (kind : String) (all : List PPS) (idx : Nat) (l : LStep) (pu : PStep) (cs : CStep) (flag : Bool)
+    (h : accountsC kind all idx l (pu, cs, flag) = true) : cs ≠ .early ∧ constK l = none := by
   cases l <;> simp only [accountsC, Bool.and_eq_true, Bool.or_eq_true, decide_eq_true_eq] at h <;>
     (try (exact Bool.noConfusion h)) <;> refine ⟨?_, by simp [constK]⟩
   all_goals (intro e; subst e; simp at h)
 
+/-- what the packer and `len()` know about the fixed-width fields already done: the value packed is the number `len()`
+    finds under the field's name (the gateway of IPSECKEY / AMTRELAY looks its type up there) -/
+def TypeFact (fs : Fields) (all : List PPS) (acc : List Val) : Prop :=
+  ∀ i p, all[i]? = some p → i < acc.length → (uintW p.2.1).isSome = true → p.1.1 ≠ "unpackIPSECGateway" →
+    ∃ x, acc[i]? = some (Val.n x) ∧ Holds fs (p.1.2.1, FVal.n x)
+
+theorem typeFact_snoc (fs : Fields) (kind : String) (all : List PPS) (acc : List Val) (p : PPS) (v v' : Val)
+    (htf : TypeFact fs all acc) (hp : all[acc.length]? = some p) (hrec : recode kind v = some v')
+    (hfa : FieldsAgree fs kind p.1 v) (hpack : (uintW p.2.1).isSome = true → ∃ x, v' = Val.n x) :
+    TypeFact fs all (acc ++ [v']) := by
+  obtain ⟨⟨codec, field, e1, e2⟩, cs, fl⟩ := p
+  intro i q hq hi hu hg
+  by_cases hlt : i < acc.length
+  · obtain ⟨x, h1, h2⟩ := htf i q hq hlt hu hg
+    exact ⟨x, by rw [List.getElem?_append_left hlt]; exact h1, h2⟩
+  · have hi' : i = acc.length := by simp only [List.length_append, List.length_cons, List.length_nil] at hi; omega
+    subst hi'
+    rw [hp] at hq
+    simp only [Option.some.injEq] at hq
+    subst hq
+    obtain ⟨x, rfl⟩ := hpack hu
+    have hv : v = Val.n x := by
+      rcases recode_shape kind v (Val.n x) hrec with h | ⟨_, _, _, h, _⟩
+      · exact h.symm
+      · cases h
+    subst hv
+    obtain ⟨g, hg1, hg2⟩ := hfa
+    simp only at hg hg1
+    simp [fieldsOfStep, hg] at hg1
+    subst hg1
+    exact ⟨x, by simp, hg2 _ (by simp)⟩
+
+theorem gatewayType_of (fs : Fields) (all : List PPS) (acc : List Val) (htf : TypeFact fs all acc) (i : Nat) (mk : Bool)
+    (tf : String) (hi : i < acc.length) (q : PPS) (hq : all[i]? = some q) (hname : q.1.2.1 = tf)
+    (hu : (uintW q.2.1).isSome = true) (hg : q.1.1 ≠ "unpackIPSECGateway") :
+    gatewayType acc i mk = (if mk then fnat fs tf % 128 else fnat fs tf) := by
+  obtain ⟨x, h1, h2⟩ := htf i q hq hi hu hg
+  rw [hname] at h2
+  have := fnat_of fs tf x h2
+  unfold gatewayType
+  have hd : acc.getD i (Val.n 0) = Val.n x := by
+    rw [List.getD_eq_getElem?_getD, h1]; rfl
+  rw [hd, this]
+
 /-- **bodies**: a `len()` body lined up with a `pack()` body (`alignedF`) predicts at least what is written, for all
     field values, from any related states -/
-theorem plan_sim (kind : String) (fs : Fields) (fuel : Nat) :
-    ∀ (cr : Nat) (ls : List LStep) (ps : List PPS) (vals vals' acc : List Val) (pos off l : Nat) (m : CMap) (c : List Bytes),
-    alignedF kind fuel cr ls ps = true →
+theorem plan_sim (kind : String) (fs : Fields) (all : List PPS) (fuel : Nat) :
+    ∀ (cr idx : Nat) (ls : List LStep) (ps : List PPS) (vals vals' acc : List Val) (pos off l : Nat) (m : CMap) (c : List Bytes),
+    alignedF kind all fuel cr idx ls ps = true →
+    acc.length = idx → all.drop idx = ps → TypeFact fs all acc →
     Rel2 (fun v v' => recode kind v = some v') vals vals' →
     (∀ v ∈ vals, ValNamesOK v) →
     Rel2 (fun (p : PPS) v => FieldsAgree fs kind p.1 v) ps vals →
@@ -706,9 +1105,9 @@ theorem plan_sim (kind : String) (fs : Fields) (fuel : Nat) :
     ∀ (l' : Nat) (c1 : Option (List Bytes)), planLenC fs off l (some c) ls = some (l', c1) →
     ∃ c', c1 = some c' ∧ Inv (pos + w.length) (off + l') m' c' := by
   induction fuel with
-  | zero => intro cr ls ps vals vals' acc pos off l m c hal; simp [alignedF] at hal
+  | zero => intro cr idx ls ps vals vals' acc pos off l m c hal; simp [alignedF] at hal
   | succ fuel ih =>
-    intro cr ls ps vals vals' acc pos off l m c hal hrec hn hfa hinv hcr w m' hp l' c1 hl
+    intro cr idx ls ps vals vals' acc pos off l m c hal hidx hdrop htf hrec hn hfa hinv hcr w m' hp l' c1 hl
     simp only [alignedF] at hal
     split at hal
     · -- a constant on the `len()` side
@@ -721,7 +1120,7 @@ theorem plan_sim (kind : String) (fs : Fields) (fuel : Nat) :
         subst hk
         simp only [List.tail_cons] at hal
         simp only [planLenC, stepLenC, stepLen, Option.map_some, Option.bind_some] at hl
-        exact ih (cr + _) ls' ps vals vals' acc pos off (l + _) m c hal hrec hn hfa
+        exact ih (cr + _) idx ls' ps vals vals' acc pos off (l + _) m c hal hidx hdrop htf hrec hn hfa
           (inv_mono _ _ _ _ hinv _ _ (Nat.le_refl _) (by have := hinv.pos; omega)) (by omega) w m' hp l' c1 hl
     · rename_i hk
       split at hal
@@ -730,6 +1129,10 @@ theorem plan_sim (kind : String) (fs : Fields) (fuel : Nat) :
         cases ps with
         | nil => simp at hw
         | cons p ps' =>
+          have hhead : all[acc.length]? = some p := by
+            rw [hidx, ← List.head?_drop, hdrop]; rfl
+          have hdrop' : all.drop (idx + 1) = ps' := by
+            rw [← List.drop_drop, hdrop]; rfl
           obtain ⟨pu, cs, fl⟩ := p
           simp only [List.head?_cons, Option.bind_some] at hw
           cases cs <;> simp only [uintW, Option.some.injEq, reduceCtorEq] at hw
@@ -762,7 +1165,9 @@ theorem plan_sim (kind : String) (fs : Fields) (fuel : Nat) :
                     simp only [hq, Option.map_some, Option.some.injEq, Prod.mk.injEq] at hp
                     obtain ⟨rfl, rfl⟩ := hp
                     rw [C11.beBytes_length] at hq
-                    have := ih (cr - w0) ls ps' vs vs' _ (pos + w0) off l m c hal hrec.2
+                    have htf' := typeFact_snoc fs kind all acc (pu, CStep.uint w0, fl) (Val.n x) (Val.n x) htf hhead hrec.1 hfa.1
+                      (fun _ => ⟨x, rfl⟩)
+                    have := ih (cr - w0) (idx + 1) ls ps' vs vs' _ (pos + w0) off l m c hal (by simp [hidx]) hdrop' htf' hrec.2
                       (fun v hv => hn v (by simp [hv])) hfa.2
                       (inv_mono _ _ _ _ hinv _ _ (by omega) (by omega)) (by omega) q.1 q.2 hq l' c1 hl
                     simpa [List.length_append, C11.beBytes_length, Nat.add_assoc] using this
@@ -782,10 +1187,15 @@ theorem plan_sim (kind : String) (fs : Fields) (fuel : Nat) :
             exact ⟨c, rfl, by simpa using hinv⟩
           | cons v' vs' => simp [packPlanC] at hp
         · rename_i l0 ls' p ps'
+          have hhead : all[acc.length]? = some p := by
+            rw [hidx, ← List.head?_drop, hdrop]; rfl
+          have hdrop' : all.drop (idx + 1) = ps' := by
+            rw [← List.drop_drop, hdrop]; rfl
+          have hnu : uintW p.2.1 = none := by simpa using hw
           obtain ⟨pu, cs, fl⟩ := p
           simp only [Bool.and_eq_true] at hal
           obtain ⟨hacc, hal⟩ := hal
-          obtain ⟨hne, _⟩ := accountsC_var kind l0 pu cs fl hacc
+          obtain ⟨hne, _⟩ := accountsC_var kind all idx l0 pu cs fl hacc
           cases vals with
           | nil => simp [Rel2] at hfa
           | cons v vs =>
@@ -809,9 +1219,22 @@ theorem plan_sim (kind : String) (fs : Fields) (fuel : Nat) :
                   | some r =>
                     obtain ⟨k, c2⟩ := r
                     simp only [hs1, Option.bind_some] at hl
-                    obtain ⟨c', rfl, hinv', hak⟩ := var_step kind fs l0 pu cs fl hacc v v' hrec.1 (hn v (by simp)) hfa.1
-                      acc pos (off + l) m c hinv a m1 hs k c2 hs1
-                    have := ih cr ls' ps' vs vs' _ (pos + a.length) off (l + k) m1 c' hal hrec.2
+                    have htype : ∀ tf mk hf i, l0 = .gateway tf mk hf → cs = .gateway i mk →
+                        gatewayType acc i mk = (if mk then fnat fs tf % 128 else fnat fs tf) := by
+                      intro tf mk hf i e1 e2
+                      subst e1 e2
+                      simp only [accountsC, Bool.and_eq_true, decide_eq_true_eq] at hacc
+                      obtain ⟨_, ⟨_, hi⟩, hq⟩ := hacc
+                      cases hai : all[i]? with
+                      | none => simp [hai] at hq
+                      | some q0 =>
+                        simp only [hai, Bool.and_eq_true, decide_eq_true_eq] at hq
+                        exact gatewayType_of fs all acc htf i mk tf (by omega) q0 hai hq.1.1 hq.1.2 hq.2
+                    obtain ⟨c', rfl, hinv', hak⟩ := var_step kind fs all idx l0 pu cs fl hacc v v' hrec.1 (hn v (by simp)) hfa.1
+                      acc htype pos (off + l) m c hinv a m1 hs k c2 hs1
+                    have htf' := typeFact_snoc fs kind all acc (pu, cs, fl) v v' htf hhead hrec.1 hfa.1
+                      (fun h => by simp [hnu] at h)
+                    have := ih cr (idx + 1) ls' ps' vs vs' _ (pos + a.length) off (l + k) m1 c' hal (by simp [hidx]) hdrop' htf' hrec.2
                       (fun v hv => hn v (by simp [hv])) hfa.2 (by simpa [Nat.add_assoc] using hinv')
                       (by omega) q.1 q.2 hq l' c1 hl
                     simpa [List.length_append, Nat.add_assoc] using this
@@ -857,18 +1280,22 @@ theorem rel2_map {α β γ : Type} (R : β → γ → Prop) (f : α → β) (xs 
   | nil => cases zs <;> simp [Rel2]
   | cons x xs ih => cases zs <;> simp [Rel2, ih]
 
-/-- one unpack step fills one field, under its own name -/
-theorem fieldsOfStep_key (kind : String) (pu : PStep) (v : Val) (g : Fields) (hc : pu.1 ≠ "unpackIPSECGateway")
-    (h : fieldsOfStep kind pu v = some g) : g.map (·.1) = [pu.2.1] := by
+/-- an unpack step fills the fields `stepKeys` names -/
+theorem fieldsOfStep_key (kind : String) (pu : PStep) (v : Val) (g : Fields)
+    (h : fieldsOfStep kind pu v = some g) : g.map (·.1) = stepKeys pu := by
   obtain ⟨codec, field, e1, e2⟩ := pu
-  simp only at hc
-  cases v <;> simp only [fieldsOfStep, hc, ↓reduceIte] at h
-  case b bs =>
-    repeat' (split at h)
-    all_goals (first | (cases h; done) | (simp only [Option.some.injEq] at h; subst h; rfl))
-  case kv items =>
-    split at h <;> (simp only [Option.some.injEq] at h; subst h; rfl)
-  all_goals (simp only [Option.some.injEq] at h; subst h; rfl)
+  by_cases hc : codec = "unpackIPSECGateway"
+  · subst hc
+    cases v <;> simp [fieldsOfStep] at h <;> subst h <;> rfl
+  · have hs : stepKeys (codec, field, e1, e2) = [field] := by simp [stepKeys, hc]
+    rw [hs]
+    cases v <;> simp only [fieldsOfStep, hc, ↓reduceIte] at h
+    case b bs =>
+      repeat' (split at h)
+      all_goals (first | (cases h; done) | (simp only [Option.some.injEq] at h; subst h; rfl))
+    case kv items =>
+      split at h <;> (simp only [Option.some.injEq] at h; subst h; rfl)
+    all_goals (simp only [Option.some.injEq] at h; subst h; rfl)
 
 theorem fa_of_groups (fs : Fields) (kind : String) :
     ∀ (pus : List PStep) (vals : List Val) (gs : List Fields), pus.length = vals.length →
@@ -895,14 +1322,14 @@ theorem fa_of_groups (fs : Fields) (kind : String) :
           exact ⟨⟨g, hx, hl g (by simp)⟩, ih vals r (by simpa using hlen) hr (fun g' hg' => hl g' (by simp [hg']))⟩
 
 theorem keys_of_groups (kind : String) :
-    ∀ (pus : List PStep) (vals : List Val) (gs : List Fields), (∀ pu ∈ pus, pu.1 ≠ "unpackIPSECGateway") →
+    ∀ (pus : List PStep) (vals : List Val) (gs : List Fields),
       (pus.zip vals).mapM (fun p => fieldsOfStep kind p.1 p.2) = some gs → pus.length = vals.length →
-      gs.flatten.map (·.1) = pus.map (·.2.1) := by
+      gs.flatten.map (·.1) = pus.flatMap stepKeys := by
   intro pus
   induction pus with
-  | nil => intro vals gs _ hm _; simp at hm; subst hm; rfl
+  | nil => intro vals gs hm _; simp at hm; subst hm; rfl
   | cons pu pus ih =>
-    intro vals gs hc hm hlen
+    intro vals gs hm hlen
     cases vals with
     | nil => simp at hlen
     | cons v vals =>
@@ -916,9 +1343,9 @@ theorem keys_of_groups (kind : String) :
         | some r =>
           simp [hx, hr] at hm
           subst hm
-          have h1 := fieldsOfStep_key kind pu v g (hc pu (by simp)) hx
-          have h2 := ih vals r (fun p hp => hc p (by simp [hp])) hr (by simpa using hlen)
-          simp only [List.flatten_cons, List.map_append, h1, h2, List.map_cons, List.singleton_append]
+          have h1 := fieldsOfStep_key kind pu v g hx
+          have h2 := ih vals r hr (by simpa using hlen)
+          simp only [List.flatten_cons, List.map_append, h1, h2, List.flatMap_cons]
 
 theorem zip3_fst {α β γ : Type} (a : List α) (b : List β) (c : List γ) (h1 : a.length = b.length) (h2 : b.length = c.length) :
     (a.zip (b.zip c)).map (fun x => x.1) = a := by
@@ -977,7 +1404,7 @@ theorem rr_core (r : RRm) (ls : List LStep) (hls : planOfC r.kind = some ls) (ps
     (hlens : (pu.filter (fun s => s.1 != "earlyexit")).length = (stripPlan cu).length ∧
       (stripPlan cu).length = (flagsOf r.kind).length)
     (hps : (pu.filter (fun s => s.1 != "earlyexit")).zip ((stripPlan cu).zip (flagsOf r.kind)) = ps)
-    (hal : alignedF r.kind (ls.length + ps.length + 1) 0 ls ps = true)
+    (hal : alignedF r.kind ps (ls.length + ps.length + 1) 0 0 ls ps = true)
     (hown : r.name = [] ∨ NameOK r.name) (fs : Fields) (hfs : fieldsOfRR r = some fs)
     (hnv : ∀ v ∈ valsOf r cu, ValNamesOK v)
     (hfa : Rel2 (fun pu v => FieldsAgree fs r.kind pu v) (pu.filter (fun s => s.1 != "earlyexit")) (valsOf r cu))
@@ -1026,8 +1453,9 @@ theorem rr_core (r : RRm) (ls : List LStep) (hls : planOfC r.kind = some ls) (ps
               ((domainNameLen r.name off (some c) true).2.getD c) := by
             have := inv_est _ _ _ _ 10 10 (Nat.le_refl _) hown'
             simpa [Nat.add_assoc] using this
-          obtain ⟨c', e1, e2⟩ := plan_sim r.kind fs (ls.length + ps.length + 1) 0 ls ps (valsOf r cu) vs []
-            (pos + o.length + 10) off ((domainNameLen r.name off (some c) true).1 + 10) m1 _ hal
+          obtain ⟨c', e1, e2⟩ := plan_sim r.kind fs ps (ls.length + ps.length + 1) 0 0 ls ps (valsOf r cu) vs []
+            (pos + o.length + 10) off ((domainNameLen r.name off (some c) true).1 + 10) m1 _ hal rfl rfl
+            (by intro i p _ hi; simp at hi)
             (mapM_rel2 _ _ _ hvs) hnv hfa hinv1 (by have := hinv1.pos; omega)
             q.1 q.2 hq k c1 hl
           refine ⟨c', e1, ?_⟩
@@ -1063,14 +1491,18 @@ theorem rel2_of_all {α β : Type} (R : α → β → Prop) (f : α × β → Bo
   | [], _ :: _, hl, _ => by simp at hl
   | _ :: _, [], hl, _ => by simp at hl
 
-/-- **one record**: owner, the ten fixed octets, the body — with RDATA, or without (the packer then writes the zero
-    values and `len()` counts them) -/
-theorem rr_sim (r : RRm) (hk : alignedKind r.kind = true) (hz : zeroFieldsOK r.kind = true) (hn : RRNamesOK r)
-    (rc : RRc) (htp : toPack r = some rc) (pos off : Nat) (m : CMap) (c : List Bytes) (hinv : Inv pos off m c)
-    (w : Bytes) (m' : CMap)
-    (hp : packRRC pos m true rc.owner rc.typ rc.cls rc.ttl rc.plan rc.vals rc.flags = some (w, m'))
-    (k : Nat) (c1 : Option (List Bytes)) (hl : lenRRC off (some c) r = some (k, c1)) :
-    ∃ c', c1 = some c' ∧ Inv (pos + w.length) (off + k) m' c' := by
+/-- what `rr_sim` establishes before it runs the body: the tables of the record's type, lined up, and `len()` finding
+    every field -/
+theorem rr_setup (r : RRm) (hk : alignedKind r.kind = true) (hz : zeroFieldsOK r.kind = true) (hn : RRNamesOK r)
+    (fs : Fields) (hfs0 : fieldsOfRR r = some fs) :
+    ∃ (ls : List LStep) (ps : List PPS) (pu : List PStep) (cu : List CStep),
+      planOfC r.kind = some ls ∧ Gen.unpackPlans.lookup r.kind = some pu ∧ Gen.unpackCodecs.lookup r.kind = some cu ∧
+      ((pu.filter (fun s => s.1 != "earlyexit")).length = (stripPlan cu).length ∧
+        (stripPlan cu).length = (flagsOf r.kind).length) ∧
+      (pu.filter (fun s => s.1 != "earlyexit")).zip ((stripPlan cu).zip (flagsOf r.kind)) = ps ∧
+      alignedF r.kind ps (ls.length + ps.length + 1) 0 0 ls ps = true ∧
+      (∀ v ∈ valsOf r cu, ValNamesOK v) ∧
+      Rel2 (fun pu v => FieldsAgree fs r.kind pu v) (pu.filter (fun s => s.1 != "earlyexit")) (valsOf r cu) := by
   unfold alignedKind at hk
   cases hls : planOfC r.kind with
   | none => simp [hls] at hk
@@ -1093,10 +1525,8 @@ theorem rr_sim (r : RRm) (hk : alignedKind r.kind = true) (hz : zeroFieldsOK r.k
             simp only [Option.some.injEq] at hps
             cases hb : r.body with
             | some vals =>
-              cases hfs : fieldsOfRR r with
-              | none => simp [lenRRC, hfs] at hl
-              | some fs =>
-                have hfs0 := hfs
+              have hfs := hfs0
+              (
                 simp only [fieldsOfRR, hb, hpu] at hfs
                 split at hfs
                 · rename_i hlen2
@@ -1106,36 +1536,24 @@ theorem rr_sim (r : RRm) (hk : alignedKind r.kind = true) (hz : zeroFieldsOK r.k
                   | some gs =>
                     simp only [hgs, Option.map_some, Option.some.injEq] at hfs
                     subst hfs
-                    have hkeys := keys_of_groups r.kind (pu.filter (fun s => s.1 != "earlyexit")) vals gs
-                      (by
-                        intro p hp'
-                        simp only [keysDistinct, Bool.and_eq_true, List.all_eq_true] at hkd
-                        have hmem : ∃ q ∈ ps, q.1 = p := by
-                          subst hps
-                          have : p ∈ ((pu.filter (fun s => s.1 != "earlyexit")).zip
-                              ((stripPlan cu).zip (flagsOf r.kind))).map (fun x => x.1) := by
-                            rw [zip3_fst _ _ _ hlens.1 hlens.2]; exact hp'
-                          obtain ⟨q, hq1, hq2⟩ := List.mem_map.mp this
-                          exact ⟨q, hq1, hq2⟩
-                        obtain ⟨q0, hq0, rfl⟩ := hmem
-                        simpa using hkd.2 q0 hq0) hgs hlen2
+                    have hkeys := keys_of_groups r.kind (pu.filter (fun s => s.1 != "earlyexit")) vals gs hgs hlen2
                     have hnd : (gs.flatten.map (·.1)).Nodup := by
                       rw [hkeys]
-                      simp only [keysDistinct, Bool.and_eq_true, decide_eq_true_eq] at hkd
-                      have : ps.map (fun p => p.1.2.1) = (pu.filter (fun s => s.1 != "earlyexit")).map (·.2.1) := by
-                        subst hps
-                        have h0 := zip3_fst (pu.filter (fun s => s.1 != "earlyexit")) (stripPlan cu) (flagsOf r.kind) hlens.1 hlens.2
-                        rw [← congrArg (List.map (·.2.1)) h0, List.map_map]; rfl
-                      rw [← this]; exact hkd.1
+                      simp only [keysDistinct, decide_eq_true_eq] at hkd
+                      have h0 : ps.map (·.1) = pu.filter (fun s => s.1 != "earlyexit") := by
+                        subst hps; exact zip3_fst _ _ _ hlens.1 hlens.2
+                      rw [← h0, List.flatMap_map]
+                      exact hkd
                     have hfa := fa_of_groups gs.flatten r.kind (pu.filter (fun s => s.1 != "earlyexit")) vals gs hlen2 hgs
                       (fun g hg x hx => Or.inl (lookup_of_nodup gs.flatten hnd x (List.mem_flatten.mpr ⟨g, hg, hx⟩)))
                     have hv : valsOf r cu = vals := by simp [valsOf, hb]
-                    exact rr_core r ls hls ps pu cu hpu hcu hlens hps hal hn.1 gs.flatten hfs0
-                      (by rw [hv]; exact fun v hv' => hn.2 vals hb v hv') (by rw [hv]; exact hfa)
-                      rc htp pos off m c hinv w m' hp k c1 hl
-                · simp at hfs
+                    exact ⟨ls, ps, pu, cu, rfl, rfl, rfl, hlens, hps, hal,
+                      (by rw [hv]; exact fun v hv' => hn.2 vals hb v hv'), (by rw [hv]; exact hfa)⟩
+                · simp at hfs)
             | none =>
               have hfs : fieldsOfRR r = some [] := by simp [fieldsOfRR, hb]
+              have hfe : fs = [] := by rw [hfs] at hfs0; exact (Option.some.inj hfs0).symm
+              subst hfe
               have hv : valsOf r cu = cu.filterMap zeroVal := by simp [valsOf, hb]
               simp only [zeroFieldsOK, hpu, hcu, Bool.and_eq_true, decide_eq_true_eq] at hz
               have hfa : Rel2 (fun pu v => FieldsAgree [] r.kind pu v) (pu.filter (fun s => s.1 != "earlyexit"))
@@ -1147,10 +1565,24 @@ theorem rr_sim (r : RRm) (hk : alignedKind r.kind = true) (hz : zeroFieldsOK r.k
                   refine ⟨g, hg, fun x hx => Or.inr ⟨rfl, ?_⟩⟩
                   exact (List.all_eq_true.mp hp') x hx
                 · cases hp'
-              exact rr_core r ls hls ps pu cu hpu hcu hlens hps hal hn.1 [] hfs
-                (by rw [hv]; exact zero_names cu) (by rw [hv]; exact hfa)
-                rc htp pos off m c hinv w m' hp k c1 hl
+              exact ⟨ls, ps, pu, cu, rfl, rfl, rfl, hlens, hps, hal,
+                (by rw [hv]; exact zero_names cu), (by rw [hv]; exact hfa)⟩
           · simp at hps
+
+
+/-- **one record**: owner, the ten fixed octets, the body — with RDATA, or without (the packer then writes the zero
+    values and `len()` counts them) -/
+theorem rr_sim (r : RRm) (hk : alignedKind r.kind = true) (hz : zeroFieldsOK r.kind = true) (hn : RRNamesOK r)
+    (rc : RRc) (htp : toPack r = some rc) (pos off : Nat) (m : CMap) (c : List Bytes) (hinv : Inv pos off m c)
+    (w : Bytes) (m' : CMap)
+    (hp : packRRC pos m true rc.owner rc.typ rc.cls rc.ttl rc.plan rc.vals rc.flags = some (w, m'))
+    (k : Nat) (c1 : Option (List Bytes)) (hl : lenRRC off (some c) r = some (k, c1)) :
+    ∃ c', c1 = some c' ∧ Inv (pos + w.length) (off + k) m' c' := by
+  cases hfs : fieldsOfRR r with
+  | none => simp [lenRRC, hfs] at hl
+  | some fs =>
+    obtain ⟨ls, ps, pu, cu, hls, hpu, hcu, hlens, hps, hal, hnv, hfa⟩ := rr_setup r hk hz hn fs hfs
+    exact rr_core r ls hls ps pu cu hpu hcu hlens hps hal hn.1 fs hfs hnv hfa rc htp pos off m c hinv w m' hp k c1 hl
 
 /-! ### sections, questions, the message -/
 
@@ -1312,5 +1744,23 @@ theorem lenMsg_ge_packMsgC (m : MsgM) (hq : ∀ q ∈ m.question, NameOK q.name)
                           subst hl
                           simp only [List.length_append, C11.beBytes_length]
                           omega
+
+end Dns.C08M
+
+namespace Dns.C08M
+open Dns Dns.MU Dns.Len Dns.C02M
+
+/-- non-vacuity of the record hypothesis: an MX record `example.org. MX 10 mail.example.org.` as the decoder holds it -/
+example :
+    Covered ⟨[101,120,97,109,112,108,101,46,111,114,103,46], 15, 1, 60, 0, "MX",
+      some [.n 10, .t [109,97,105,108,46,101,120,97,109,112,108,101,46,111,114,103,46]]⟩ := by
+  refine ⟨by decide, by decide, ⟨Or.inr ⟨[[101,120,97,109,112,108,101],[111,114,103]], by decide, by decide⟩, ?_⟩⟩
+  intro vals hv v hmem
+  simp only [Option.some.injEq] at hv
+  subst hv
+  simp only [List.mem_cons, List.not_mem_nil, or_false] at hmem
+  rcases hmem with rfl | rfl
+  · trivial
+  · exact Or.inr ⟨[[109,97,105,108],[101,120,97,109,112,108,101],[111,114,103]], by decide, by decide⟩
 
 end Dns.C08M
